@@ -7,6 +7,7 @@ package main
 import (
 	"bytes"
 	"context"
+	"reflect"
 	"runtime/pprof"
 	"errors"
 	"fmt"
@@ -51,6 +52,8 @@ type itemT struct {
 	spins  int
 	rank   int
 	honour bool // the Go function looks at the request context and returns its error once cancelled
+	errKind  int  // failing item: the Go kind of the error value
+	typedNil bool // succeeding item: the value comes with a typed-nil error
 	span   bool // subscriptions: the function is held beyond its own event and released while the next event's handler is blocked
 }
 
@@ -184,9 +187,21 @@ func newRun(items []*itemT, conns map[int]*connSpec) *run {
 
 func (r *run) valueOf(it *itemT) (interface{}, error) {
 	if !it.ok {
-		return nil, fmt.Errorf("e%d", it.val)
+		return nil, errOfKind(it.errKind, it.val)
+	}
+	if it.typedNil {
+		return it.value, (*errPtr)(nil)
 	}
 	return it.value, nil
+}
+
+// isNilErr: the executor's notion of "no error": nil, or a nil pointer
+func isNilErr(err error) bool {
+	if err == nil {
+		return true
+	}
+	rv := reflect.ValueOf(err)
+	return rv.Kind() == reflect.Ptr && rv.IsNil()
 }
 
 func (r *run) logf(name string, a int) {
@@ -573,7 +588,7 @@ func (r *run) ensureChainFinished(c int) {
 }
 
 func encodeResult(it *itemT, v graphql.ResolveResult) sexp.Node {
-	if v.Error != nil {
+	if !isNilErr(v.Error) {
 		msg := v.Error.Error()
 		if strings.HasPrefix(msg, "e") {
 			if n, err := strconv.Atoi(msg[1:]); err == nil {
